@@ -89,7 +89,12 @@ def read_project(d: Path, names):
 
 
 def _purge_modules():
-    sys.modules.pop("vp", None)
+    """forget vp and every module imported from a scratch project directory"""
+    root = str(common.tmp_root())
+    for name, mod in list(sys.modules.items()):
+        f = getattr(mod, "__file__", None)
+        if name == "vp" or (f and f.startswith(root)):
+            del sys.modules[name]
 
 
 def _exec_file(path: Path, keep):
